@@ -30,6 +30,16 @@ func emit(n *gen.Node, v structform.Visitor, known bool) error {
 		return v.OnFloat64(math.Float64frombits(n.Bits))
 	case gen.KStr:
 		return v.OnString(string(n.Str))
+	case gen.KBytes:
+		if err := v.OnArrayStart(len(n.Str), structform.ByteType); err != nil {
+			return err
+		}
+		for _, b := range n.Str {
+			if err := v.OnByte(b); err != nil {
+				return err
+			}
+		}
+		return v.OnArrayFinished()
 	case gen.KArr:
 		l := -1
 		if known {
@@ -78,7 +88,7 @@ func hasEmptyKey(n *gen.Node) bool {
 }
 
 func genCfg(h *rt.H) *gen.Cfg {
-	return &gen.Cfg{Depth: h.Param("D", 2), Width: h.Param("W", 2), MaxNode: h.Param("K", 4), StrLen: h.Param("S", 1), Leaves: h.Param("L", 4), ASCII: h.Param("ASCII", 0) == 1, Small: h.Param("SMALL", 0) == 1}
+	return &gen.Cfg{Depth: h.Param("D", 2), Width: h.Param("W", 2), MaxNode: h.Param("K", 4), StrLen: h.Param("S", 1), Leaves: h.Param("L", 4), ASCII: h.Param("ASCII", 0) == 1, Small: h.Param("SMALL", 0) == 1, Bytes: h.Param("BYTES", 0) == 1}
 }
 
 // newEncoder creates the codec's encoder; for JSON the three options are chosen symbolically.
@@ -311,3 +321,186 @@ func RT_JSONInt(h *rt.H)   { jsonIntRT(h, false, false) }
 func RT_JSONUint(h *rt.H)  { jsonIntRT(h, true, false) }
 func ENC_JSONInt(h *rt.H)  { jsonIntRT(h, false, true) }
 func ENC_JSONUint(h *rt.H) { jsonIntRT(h, true, true) }
+
+// jsonFloatEnc (C01, C07): floats through the JSON encoder under every option
+// combination. strconv is not encoded, so the floats are concrete representative
+// values (stated in the evidence as enumeration, not as an all-values claim); what
+// is decided is the encoder's own text handling around strconv's output: the
+// separator logic, the non-finite guard, the radix point insertion.
+var jsonFloatSet = []float64{0, 1, -1, 0.5, 100000000, 1e21, 1e-7, 123456789.125, -2.5e-300, 1.7976931348623157e308, 5e-324}
+
+func jsonFloatEnc(h *rt.H) {
+	out := &sink{}
+	v := json.NewVisitor(out)
+	ignore := h.Choose("ignoreInvalidFloat", 0, 1) == 1
+	radix := h.Choose("explicitRadixPoint", 0, 1) == 1
+	v.SetIgnoreInvalidFloat(ignore)
+	v.SetExplicitRadixPoint(radix)
+	ctx := h.Choose("ctx", 0, 2) // 0 top level, 1 array of two, 2 object member followed by another
+	pick := func(name string) (float64, bool) {
+		k := h.Choose(name, 0, len(jsonFloatSet)+2)
+		switch k - len(jsonFloatSet) {
+		case 0:
+			return math.NaN(), false
+		case 1:
+			return math.Inf(1), false
+		case 2:
+			return math.Inf(-1), false
+		}
+		return jsonFloatSet[k], true
+	}
+	f32 := h.Choose("f32", 0, 1) == 1
+	on := func(f float64) error {
+		if f32 {
+			return v.OnFloat32(float32(f))
+		}
+		return v.OnFloat64(f)
+	}
+	a, finA := pick("a")
+	if f32 && finA && float64(float32(a)) != a {
+		a = float64(float32(a))
+		finA = !math.IsInf(a, 0)
+	}
+	var err error
+	nFloats := 1
+	switch ctx {
+	case 0:
+		err = on(a)
+	case 1:
+		b, _ := pick("b")
+		nFloats = 2
+		err = v.OnArrayStart(-1, structform.AnyType)
+		if err == nil {
+			err = v.OnInt8(7)
+		}
+		if err == nil {
+			err = on(a)
+		}
+		if err == nil {
+			err = on(b)
+			if math.IsNaN(b) || math.IsInf(b, 0) || (f32 && math.IsInf(float64(float32(b)), 0)) {
+				finA = false // some non-finite value in the sequence
+			}
+		}
+		if err == nil {
+			err = v.OnArrayFinished()
+		}
+	case 2:
+		err = v.OnObjectStart(-1, structform.AnyType)
+		if err == nil {
+			err = v.OnKey("x")
+		}
+		if err == nil {
+			err = on(a)
+		}
+		if err == nil {
+			err = v.OnKey("y")
+		}
+		if err == nil {
+			err = v.OnInt8(7)
+		}
+		if err == nil {
+			err = v.OnObjectFinished()
+		}
+	}
+	_ = nFloats
+	if !finA && !ignore {
+		h.Assert("nonfinite-refused", err != nil)
+		return
+	}
+	h.Assert("encoded", err == nil)
+	// the document must be valid JSON (independent decoder); non-finite values are null
+	evs, class, items := ref.DecodeJSON(h, out.B)
+	h.Assert("valid-document", class == ref.OK && items == 1)
+	if finA {
+		// the first float reads back numerically equal (integral floats may come back as integers)
+		var got ev.Event
+		for _, e := range evs {
+			if e.K == ev.Float64 || (e.K == ev.Num && !(ctx != 0 && e.Bits == 7 && !e.Neg)) {
+				got = e
+				break
+			}
+		}
+		ok := false
+		switch got.K {
+		case ev.Float64:
+			ok = math.Float64frombits(got.Bits) == a
+			if f32 {
+				// shortest decimal that identifies the float32
+				ok = float32(math.Float64frombits(got.Bits)) == float32(a)
+			}
+		case ev.Num:
+			m := float64(got.Bits)
+			if got.Neg {
+				m = -m
+			}
+			ok = m == a
+		}
+		if a != 7 {
+			h.Assert("float-value", ok)
+		}
+		if radix {
+			// with an explicit radix point the float never reads back as an integer
+			h.Assert("radix-point", got.K == ev.Float64)
+		}
+	}
+	h.ObserveBytes("bytes", out.B)
+}
+
+func ENC_JSONFloat(h *rt.H) { jsonFloatEnc(h) }
+
+// ubjsonHighPrec (C01, C07, C10): unsigned values above MaxInt64 travel as
+// high-precision decimal strings. Concrete representative values (strconv.AppendUint
+// and its digit tables are executed from their SSA); scalar, typed array, typed map.
+var highPrecSet = []uint64{1 << 63, 1<<63 + 1, 10000000000000000000, 12345678901234567890, math.MaxUint64 - 1, math.MaxUint64}
+var smallSet = []uint64{0, 1, 9, 10, 255, 65536, 1 << 40, 9999999999999999, 10000000000000000, math.MaxInt64}
+
+func decimal(u uint64) []byte {
+	if u == 0 {
+		return []byte{'0'}
+	}
+	var b []byte
+	for u > 0 {
+		b = append([]byte{byte('0' + u%10)}, b...)
+		u /= 10
+	}
+	return b
+}
+
+func ubjsonHighPrec(h *rt.H) {
+	out := &sink{}
+	enc := structform.EnsureExtVisitor(ubjsonCodec.newVisitor(out))
+	big := highPrecSet[h.Choose("big", 0, len(highPrecSet)-1)]
+	small := smallSet[h.Choose("small", 0, len(smallSet)-1)]
+	shape := h.Choose("shape", 0, 4)
+	var err error
+	var want []ev.Event
+	str := func(u uint64) ev.Event { return ev.Event{K: ev.String, Str: decimal(u)} }
+	switch shape {
+	case 0:
+		err = enc.OnUint64(big)
+		want = []ev.Event{str(big)}
+	case 1: // array: one element above MaxInt64 forces the high-precision form for all
+		err = enc.OnUint64Array([]uint64{small, big})
+		want = []ev.Event{{K: ev.ArrStart}, str(small), str(big), {K: ev.ArrEnd}}
+	case 2:
+		err = enc.OnUint64Array([]uint64{big, small})
+		want = []ev.Event{{K: ev.ArrStart}, str(big), str(small), {K: ev.ArrEnd}}
+	case 3:
+		err = enc.OnUintArray([]uint{uint(big), uint(small)})
+		want = []ev.Event{{K: ev.ArrStart}, str(big), str(small), {K: ev.ArrEnd}}
+	case 4:
+		err = enc.OnUint64Object(map[string]uint64{"a": big})
+		want = []ev.Event{{K: ev.ObjStart}, {K: ev.Key, Str: []byte("a")}, str(big), {K: ev.ObjEnd}}
+	}
+	h.Assert("encoded", err == nil)
+	got, class, items := ref.DecodeUBJSON(h, out.B)
+	h.Assert("valid-document", class == ref.OK && items == 1)
+	h.Assert("value", ev.Equal(got, want))
+	var rec ev.Recorder
+	h.Assert("accepted", ubjsonCodec.parse(cloneBytes(out.B), &rec) == nil)
+	h.Assert("roundtrip", ev.Equal(ev.Normalise(rec.Events), want))
+	h.ObserveBytes("bytes", out.B)
+}
+
+func ENC_UBJSON_HighPrec(h *rt.H) { ubjsonHighPrec(h) }
